@@ -168,7 +168,20 @@ static void RunOne(const string& mode, const string& in) {
     fclose(f);
     BuildLog l;
     string err;
-    l.Load(p, &err);
+    if (l.Load(p, &err) != LOAD_ERROR) {
+      // what ninja does next with a loaded log: look entries up, restat them, recompact, append
+      struct NoDead : public BuildLogUser { bool IsPathDead(StringPiece) const override { return false; } } user;
+      for (auto& e : l.entries()) l.LookupByOutput(e.first.AsString());
+      MemDisk disk;
+      disk.files["a"] = "x";
+      string e2;
+      l.Restat(p, disk, 0, nullptr, &e2);
+      BuildLog l2;
+      if (l2.Load(p, &e2) != LOAD_ERROR) {
+        l2.Recompact(p, user, &e2);
+        if (l2.OpenForWrite(p, user, &e2)) l2.Close();
+      }
+    }
   } else if (mode == "depslog") {
     string full = string("# ninjadeps\n") + string("\x04\0\0\0", 4) + in;
     string p = g_tmp + "/dl";
